@@ -770,18 +770,29 @@ def run(ctx: Ctx) -> None:
                 "additionally all its valid cuts, and per order one cut of every output, as successive handles inside ONE "
                 "construct_dag block; every description additionally as a pipeline with a user cache (cache_type simple/lru, "
                 "first/last/all functions cached) called once before and then again, same inputs, inside a construct_dag block "
-                "(the recorded graph mixes nodes created before the block with new ones); "
+                "(the recorded graph mixes nodes created before the block with new ones); every description in every order "
+                "additionally with a fault plan on its user functions (one function raising on its first invocation / on every "
+                "invocation, all raising on their first; plan and variant rotate with the case): three successive eager calls "
+                "next to three successive evaluate() calls on one handle | a handle abandoned after an evaluate() that raised, "
+                "then the other outputs as further handles of the same construct_dag block (sharing its nodes), then the first "
+                "again outside | the same through a user cache (all functions cached); "
                 "descriptions are ALL members of the TLA+-defined universe of MC_PipelineCall (2 functions quick / 2 rich + 3 "
                 "functions thorough: parameters from 3 roots and earlier outputs, diamonds, tuple outputs, defaults, bound "
                 "and shadowing bound values), all listing orders, every valid cut (2 functions: in every order without dag "
                 "and under construct_dag, each with its eager twin; 3 functions: in every order one lazy history, calling "
-                "convention and dag variant rotating, eager twin every third) plus surplus and missing-argument variants; plus random DAGs up to 6 functions; non-trivial = at least one user "
+                "convention and dag variant rotating, eager twin every third) plus surplus and missing-argument variants; plus random DAGs up to 6 functions (each also with a random fault plan and variant); non-trivial = at least one user "
                 "function executed")
     ctx.assumptions = ["TLC and the JSON encoding are trusted", "user functions are free term constructors (build.py)",
                        "node identity in the task graph is read off _LazyFunction.func (the pipeline's PipeFunc wrapping the "
                        "harness function, or its output_picker)",
                        "user caches only in the before-the-block/inside-the-block histories (same inputs); other lazy x cache "
                        "interaction belongs to C09",
+                       "faults: a harness function raises HarnessError('fault in <name>') on its first invocation or on every one "
+                       "(build.py failure injection); with a user cache only pipelines whose functions are all cached, outside "
+                       "construct_dag() (a cached consumer of an UNCACHED producer keeps its own producer node next to the one a "
+                       "later full_output call creates, so that producer runs twice in one evaluate() when the earlier handle "
+                       "never completed - lazy x partial user cache, C09's subject; and which nodes of a recorded graph may "
+                       "predate the block is stated through completed invocations)",
                        "handles of one construct_dag() block are built and evaluated one after the other (one live handle); "
                        "whether a later handle re-invokes a function already invoked with identical arguments for an earlier "
                        "handle of the block is a stated don't-care (memo/Reused in PipelineLazy.tla)"]
@@ -900,7 +911,14 @@ def selftest(ctx: Ctx, traces: list[dict]) -> None:
                 return k
         return -1
 
-    good = [pick(has_eval_calls), pick(has_edges), pick(lambda evs: retry_at(evs) >= 0)]
+    try:
+        good = [pick(has_eval_calls), pick(has_edges), pick(lambda evs: retry_at(evs) >= 0)]
+    except MachineryError:
+        if not ctx.violations:
+            raise
+        # the tree under test violates the property in a way that leaves no history of the shape the self-test corrupts
+        ctx.selftest("trace-corruption", False, "no suitable history among the recorded ones")
+        return
     batch: list[dict] = [copy.deepcopy(g) for g in good]
     expect: dict[int, int] = {}
     names: dict[int, str] = {}
